@@ -48,6 +48,7 @@ struct Shared {
 };
 
 char* g_noteSlot = nullptr;  // points into shared memory in a worker / alone-job
+std::atomic<int64_t>* g_beat = nullptr;  // watchdog reference time of this worker / alone-job (shared memory)
 char g_localNote[240];
 
 int64_t nowMs() {
@@ -279,6 +280,7 @@ struct Ctx {
 [[noreturn]] void workerBody(const Ctx& c, int w, int fd, int64_t resumeFrom, int64_t resumeEnd, bool verbose) {
   std::set_terminate(onTerminate);
   g_noteSlot = c.sh->w[w].note;
+  g_beat = &c.sh->w[w].startedMs;
   g_noteSlot[0] = 0;
   std::string errf = g_tmp + "/w" + std::to_string(w) + ".err";
   if (!verbose) {
@@ -345,6 +347,11 @@ struct AloneJob {
   bool timedOut = false, finished = false;
 };
 
+std::atomic<int64_t>* aloneBeats() {
+  static auto* m = (std::atomic<int64_t>*)mmap(nullptr, sizeof(std::atomic<int64_t>) * 64, PROT_READ | PROT_WRITE, MAP_SHARED | MAP_ANONYMOUS, -1, 0);
+  return m;
+}
+
 char* aloneNotes() {
   static char* m = (char*)mmap(nullptr, 240 * 64, PROT_READ | PROT_WRITE, MAP_SHARED | MAP_ANONYMOUS, -1, 0);
   return m;
@@ -353,6 +360,7 @@ char* aloneNotes() {
 void startJob(const Ctx& c, AloneJob& j, bool verbose, int slot) {
   char* notes = aloneNotes();
   notes[240 * (slot % 64)] = 0;
+  aloneBeats()[slot % 64].store(nowMs());
   int p[2];
   if (pipe(p) != 0) {
     j.finished = true;
@@ -364,6 +372,7 @@ void startJob(const Ctx& c, AloneJob& j, bool verbose, int slot) {
     close(p[0]);
     std::set_terminate(onTerminate);
     g_noteSlot = notes + 240 * (slot % 64);
+    g_beat = &aloneBeats()[slot % 64];
     if (!verbose) {
       std::string errf = g_tmp + "/alone" + std::to_string(slot) + ".err";
       int e = ::open(errf.c_str(), O_WRONLY | O_CREAT | O_TRUNC, 0644);
@@ -461,7 +470,8 @@ void runJobs(const Ctx& c, std::vector<AloneJob>& jobs, int par, bool verbose = 
         else
           eof = true;
       }
-      if (!eof && (nowMs() - j.t0) / 1000.0 > j.timeoutSec) {
+      // the limit applies to the time since the job last reported progress (an exploration may legitimately run for long)
+      if (!eof && (nowMs() - std::max<int64_t>(j.t0, aloneBeats()[slotOf[running[k]] % 64].load())) / 1000.0 > j.timeoutSec) {
         ::kill(j.pid, SIGKILL);
         j.timedOut = true;
         eof = true;
@@ -487,6 +497,10 @@ std::vector<Violation> runAlone(const Ctx& c, size_t idx, double timeoutSec, boo
 }
 
 }  // namespace
+
+void progress() {
+  if (g_beat) g_beat->store(nowMs());
+}
 
 void note(const std::string& s) {
   char* dst = g_noteSlot ? g_noteSlot : g_localNote;
